@@ -269,6 +269,9 @@ def run(ctx):
     # the annotation of an assignment survives the re-optimisation on freeze (shared with C02.R10)
     from rules.C02 import r10_optimize_keeps_components
     r10_optimize_keeps_components(ctx, F, rule="C16.R6")
+    # annotated defs are never inlined, so their parameter / return checks always run (shared with C02.R11)
+    from rules.C02 import r11_no_inlining_of_annotated_defs
+    r11_no_inlining_of_annotated_defs(ctx, F, rule="C16.R8")
     r4_union_exact(ctx, F)
     r1(ctx, F)
     r1b(ctx, F)
